@@ -391,7 +391,9 @@ impl Judge<'_> {
                         // it is (an absolute tolerance would accept '0' for a probability of 2^-40). Not
                         // for expectation values: the reference computes those in floating point, where
                         // an exact zero comes out as +-1e-17.
-                        1e-9 * x.abs() + 1e-18
+                        // (the absolute floor leaves room for an implementation that sums in floating
+                        // point; a '0' printed for 2^-40 is still far outside)
+                        1e-9 * x.abs() + 1e-15
                     } else {
                         self.tol()
                     };
@@ -821,7 +823,7 @@ impl Property for C06 {
         "exploration"
     }
     fn rule(&self) -> String {
-        "decider generates a circuit (1..4 qubits quick / 5 thorough, <=14 gates from the QASM-expressible unitary set; sub-batches: Clifford+T without SWAP, with SWAP, with non-k*pi/4 phases, with idle qubits, zero-gate programs), prints it with the harness's own QASM printer, picks a query (amplitude / expectation incl. broadcast and lower case, --shots 0..16, default task), method and --parallel, and calls the CLI in-process with the ambient-RNG seam (every Bernoulli draw of the sampler is a decider decision), the fork-join seam and the Bernoulli observer installed; the same query is repeated under another method and the other --parallel setting. Oracles from the harness's state-vector simulator: printed probability / expectation; S1 every printed sample has non-zero Born probability; S2 each (prefix, p) handed to a Bernoulli draw satisfies p = P(next=1 | prefix); S3 (stats sub-batch) chi-square of decider-driven samples against the Born distribution at 1e-12. Malformed argv must give an error, not a panic or an answer. Fault sub-batch: the real binary as a child under input faults (missing, directory, empty, torn at a statement boundary / mid token) and output faults (ENOSPC, torn write by RLIMIT_FSIZE, missing directory, directory target, stdout to /dev/full, closed pipe), and sub-batch sysfaults: the child under the system-call seam (LD_PRELOAD shim: short reads / short writes, EINTR and errno failures at decider-chosen open/read/write calls on the input file, the --out file or stdout; up to 300 shots so that the answer spans several writes): success only with the complete correct answer for the complete program. Further dimensions of a run: a longer file already at the --out path (a third of the runs); an earlier Cli::run on the same (fresh) thread before the query under test - the same query on a sibling circuit with other angles, another circuit at the same path, or a failing call (a third of the in-process runs); sub-batch many_shots (1000..16385 shots on 1-2 qubits: batch and buffer boundaries); wide registers (24..48 qubits as a product of small blocks) with 64..80 shots in a quarter of the runs and amplitude queries inside the support; malformed strings with multi-byte characters. S4: per-position and overall drift of the printed bits against the reference conditionals, Hoeffding bound below 1e-12. Printed probabilities of Clifford+T circuits are compared relatively (1e-9*x + 1e-18). Non-trivial: >=2 basis states with non-zero probability and a marginal strictly between 0 and 1 conditioned on a non-deterministic prefix. Distinct by (scenario digest, event digest).".into()
+        "decider generates a circuit (1..4 qubits quick / 5 thorough, <=14 gates from the QASM-expressible unitary set; sub-batches: Clifford+T without SWAP, with SWAP, with non-k*pi/4 phases, with idle qubits, zero-gate programs), prints it with the harness's own QASM printer, picks a query (amplitude / expectation incl. broadcast and lower case, --shots 0..16, default task), method and --parallel, and calls the CLI in-process with the ambient-RNG seam (every Bernoulli draw of the sampler is a decider decision), the fork-join seam and the Bernoulli observer installed; the same query is repeated under another method and the other --parallel setting. Oracles from the harness's state-vector simulator: printed probability / expectation; S1 every printed sample has non-zero Born probability; S2 each (prefix, p) handed to a Bernoulli draw satisfies p = P(next=1 | prefix); S3 (stats sub-batch) chi-square of decider-driven samples against the Born distribution at 1e-12. Malformed argv must give an error, not a panic or an answer. Fault sub-batch: the real binary as a child under input faults (missing, directory, empty, torn at a statement boundary / mid token) and output faults (ENOSPC, torn write by RLIMIT_FSIZE, missing directory, directory target, stdout to /dev/full, closed pipe), and sub-batch sysfaults: the child under the system-call seam (LD_PRELOAD shim: short reads / short writes, EINTR and errno failures at decider-chosen open/read/write calls on the input file, the --out file or stdout; up to 300 shots so that the answer spans several writes): success only with the complete correct answer for the complete program. Further dimensions of a run: a longer file already at the --out path (a third of the runs); an earlier Cli::run on the same (fresh) thread before the query under test - the same query on a sibling circuit with other angles, another circuit at the same path, or a failing call (a third of the in-process runs); sub-batch many_shots (1000..16385 shots on 1-2 qubits: batch and buffer boundaries); wide registers (24..48 qubits as a product of small blocks) with 64..80 shots in a quarter of the runs and amplitude queries inside the support; malformed strings with multi-byte characters. S4: per-position and overall drift of the printed bits against the reference conditionals, Hoeffding bound below 1e-12. Printed probabilities of Clifford+T circuits are compared relatively (1e-9*x + 1e-15). Non-trivial: >=2 basis states with non-zero probability and a marginal strictly between 0 and 1 conditioned on a non-deterministic prefix. Distinct by (scenario digest, event digest).".into()
     }
     fn assumptions(&self) -> Vec<String> {
         vec![
